@@ -45,8 +45,15 @@ StubPDFRatio(cfg, R, dR=None, param_names=None, bkg_param_names=None)
                                                 get_gradient(fitparam_id) sums dR[name] over the local names whose
                                                 ``name:gpidx`` equals fitparam_id+1 for source k, and returns the int 0
                                                 when no source maps the fit parameter.  Counts calls in ``.n_calls``.
-StubSigPDF(cfg, S) / StubBkgPDF(cfg, B)      -> PDF + IsSignalPDF / IsBackgroundPDF with prescribed densities for the real
-                                                SigOverBkgPDFRatio: S (K, E) per (source, eid), B (E,) per eid (zeros allowed)
+                                                Keyword ``share=True`` (default False): behave like a real PDF ratio with a
+                                                cache — the values are computed once per trial (initialize_for_new_trial, or
+                                                lazily) and get_ratio returns *that stored array object itself* (no copy), so a
+                                                consumer that writes into its input corrupts later evaluations.
+                                                ``.snapshot()`` -> bytes of every array the stub owns (tables + stored values).
+StubSigPDF(cfg, S, share=False) / StubBkgPDF(cfg, B, share=False)
+                                             -> PDF + IsSignalPDF / IsBackgroundPDF with prescribed densities for the real
+                                                SigOverBkgPDFRatio: S (K, E) per (source, eid), B (E,) per eid (zeros allowed);
+                                                ``share`` / ``.snapshot()`` as for StubPDFRatio
 StubDetSigYield(Y, dY=None, param_names=())  -> DetSigYield for one (dataset, group): Y (n_src_of_group,) array or
                                                 callable(params_of_group)->array; dY: dict local-name -> array|callable
 StubDetSigYieldService(shg_mgr, arr)         -> DetSigYieldService holding the (J, G) object array ``arr``
@@ -233,7 +240,7 @@ def _stub_classes():
         return np.asarray(x(params) if callable(x) else x, dtype=np.float64)
 
     class StubPDFRatio(PDFRatio):
-        def __init__(self, cfg, R, dR=None, param_names=None, bkg_param_names=None):
+        def __init__(self, cfg, R, dR=None, param_names=None, bkg_param_names=None, share=False):
             dR = dict(dR or {})
             if param_names is None:
                 param_names = list(dR.keys())
@@ -241,10 +248,22 @@ def _stub_classes():
                              cfg=cfg)
             self.R = R
             self.dR = dR
+            self.share = bool(share)
+            self._stored = None
             self.n_calls = collections.Counter()
 
         def initialize_for_new_trial(self, tdm, tl=None, **kwargs):
             self.n_calls['initialize_for_new_trial'] += 1
+            self._stored = None
+            if self.share and not callable(self.R):
+                self._stored = np.array(self._take(_val(self.R, {}), tdm), dtype=np.float64)
+
+        def snapshot(self):
+            parts = [] if callable(self.R) else [np.asarray(self.R, dtype=np.float64).tobytes()]
+            parts += [np.asarray(d, dtype=np.float64).tobytes() for d in self.dR.values() if not callable(d)]
+            if self._stored is not None:
+                parts.append(self._stored.tobytes())
+            return b'|'.join(parts)
 
         def _take(self, table, tdm):
             (src_idxs, evt_idxs) = tdm.src_evt_idxs
@@ -253,6 +272,10 @@ def _stub_classes():
 
         def get_ratio(self, tdm, src_params_recarray, tl=None):
             self.n_calls['get_ratio'] += 1
+            if self.share and not callable(self.R):
+                if self._stored is None or len(self._stored) != tdm.get_n_values():
+                    self._stored = np.array(self._take(_val(self.R, {}), tdm), dtype=np.float64)
+                return self._stored
             table = _val(self.R, _params_dict(src_params_recarray))
             return np.array(self._take(table, tdm), dtype=np.float64)
 
@@ -276,30 +299,57 @@ def _stub_classes():
 
     from skyllh.core.pdf import PDF, IsBackgroundPDF, IsSignalPDF
 
-    class StubSigPDF(PDF, IsSignalPDF):
-        def __init__(self, cfg, S):
+    class _StubPDFBase(PDF):
+        """densities computed once per trial and (share=True) handed out without a copy"""
+        def _init(self, cfg, table, share):
             super().__init__(pmm=None, param_set=None, cfg=cfg)
-            self.S = np.asarray(S, dtype=np.float64)
+            self.table = np.asarray(table, dtype=np.float64)
+            self.share = bool(share)
+            self._stored = None
 
         def assert_is_valid_for_trial_data(self, tdm, tl=None, **kwargs):
             pass
 
+        def initialize_for_new_trial(self, tdm, tl=None, **kwargs):
+            self._stored = None
+
+        def snapshot(self):
+            parts = [self.table.tobytes()]
+            if self._stored is not None:
+                parts.append(self._stored.tobytes())
+            return b'|'.join(parts)
+
         def get_pd(self, tdm, params_recarray=None, tl=None):
+            if not self.share:
+                return (np.array(self._values(tdm), dtype=np.float64), dict())
+            if self._stored is None or len(self._stored) != self._n(tdm):
+                self._stored = np.array(self._values(tdm), dtype=np.float64)
+            return (self._stored, dict())
+
+    class StubSigPDF(_StubPDFBase, IsSignalPDF):
+        def __init__(self, cfg, S, share=False):
+            self._init(cfg, S, share)
+            self.S = self.table
+
+        def _n(self, tdm):
+            return tdm.get_n_values()
+
+        def _values(self, tdm):
             (src_idxs, evt_idxs) = tdm.src_evt_idxs
             eid = np.asarray(tdm.get_data('eid'))
-            return (np.array(self.S[src_idxs, eid[evt_idxs]], dtype=np.float64), dict())
+            return self.table[src_idxs, eid[evt_idxs]]
 
-    class StubBkgPDF(PDF, IsBackgroundPDF):
-        def __init__(self, cfg, B):
-            super().__init__(pmm=None, param_set=None, cfg=cfg)
-            self.B = np.asarray(B, dtype=np.float64)
+    class StubBkgPDF(_StubPDFBase, IsBackgroundPDF):
+        def __init__(self, cfg, B, share=False):
+            self._init(cfg, B, share)
+            self.B = self.table
 
-        def assert_is_valid_for_trial_data(self, tdm, tl=None, **kwargs):
-            pass
+        def _n(self, tdm):
+            return tdm.n_selected_events
 
-        def get_pd(self, tdm, params_recarray=None, tl=None):
+        def _values(self, tdm):
             eid = np.asarray(tdm.get_data('eid'))
-            return (np.array(self.B[eid], dtype=np.float64), dict())
+            return self.table[eid]
 
     class StubDetSigYield(DetSigYield):
         def __init__(self, Y, dY=None, param_names=()):
@@ -350,16 +400,17 @@ def StubEventSelection(shg_mgr, mask):
     return _stub_classes()['StubEventSelection'](shg_mgr, mask)
 
 
-def StubPDFRatio(cfg, R, dR=None, param_names=None, bkg_param_names=None):
-    return _stub_classes()['StubPDFRatio'](cfg, R, dR=dR, param_names=param_names, bkg_param_names=bkg_param_names)
+def StubPDFRatio(cfg, R, dR=None, param_names=None, bkg_param_names=None, share=False):
+    return _stub_classes()['StubPDFRatio'](cfg, R, dR=dR, param_names=param_names, bkg_param_names=bkg_param_names,
+                                           share=share)
 
 
-def StubSigPDF(cfg, S):
-    return _stub_classes()['StubSigPDF'](cfg, S)
+def StubSigPDF(cfg, S, share=False):
+    return _stub_classes()['StubSigPDF'](cfg, S, share=share)
 
 
-def StubBkgPDF(cfg, B):
-    return _stub_classes()['StubBkgPDF'](cfg, B)
+def StubBkgPDF(cfg, B, share=False):
+    return _stub_classes()['StubBkgPDF'](cfg, B, share=share)
 
 
 def StubDetSigYield(Y, dY=None, param_names=()):
